@@ -21,9 +21,10 @@ func c12Scenarios(tier string) []*Scenario {
 		{"fanin2", map[string][]string{"b": {"a"}, "c": {"a"}}, []string{"a", "b", "c"}},
 		{"fanout", map[string][]string{"c": {"a", "b"}}, []string{"a", "b", "c"}},
 	}
+	shapes = append(shapes, shape{"fanin3", map[string][]string{"b": {"a"}, "c": {"a"}, "d": {"a"}}, []string{"a", "b", "c", "d"}})
 	if tier == "thorough" {
 		shapes = append(shapes,
-			shape{"fanin3", map[string][]string{"b": {"a"}, "c": {"a"}, "d": {"a"}}, []string{"a", "b", "c", "d"}},
+			shape{"fanin4", map[string][]string{"b": {"a"}, "c": {"a"}, "d": {"a"}, "e": {"a"}}, []string{"a", "b", "c", "d", "e"}},
 			shape{"diamond", map[string][]string{"b": {"a"}, "c": {"a"}, "d": {"b", "c"}}, []string{"a", "b", "c", "d"}},
 			shape{"chain+free", map[string][]string{"b": {"a"}}, []string{"a", "b", "c"}},
 		)
@@ -35,7 +36,7 @@ func c12Scenarios(tier string) []*Scenario {
 			if ended == 1<<n-1 {
 				continue
 			}
-			if tier != "thorough" && bitsSet(ended) > 1 {
+			if tier != "thorough" && (bitsSet(ended) > 1 || (n > 3 && ended != 0)) {
 				continue
 			}
 			var nodes []GNode
